@@ -84,7 +84,19 @@ Cat ==
   ("no_survey_sheet"         :> M({}, "form", FALSE, "kind")) @@
   ("no_choices_sheet"        :> M({}, "form", FALSE, "kind")) @@
   ("omit_instanceid_with_key":> M({}, "form", FALSE, "kind")) @@
-  ("entity_two_rows"         :> M({}, "form", FALSE, "kind"))
+  ("entity_two_rows"         :> M({}, "form", FALSE, "kind")) @@
+  \* bad audit parameters, two external instances of one name in different groups, a search() list shared with a plain select
+  ("audit_bad_track_changes" :> M({}, "form", FALSE, "ident")) @@
+  ("audit_bad_identify_user" :> M({}, "form", FALSE, "ident")) @@
+  ("audit_bad_reasons"       :> M({}, "form", FALSE, "ident")) @@
+  ("audit_bad_location_priority" :> M({}, "form", FALSE, "ident")) @@
+  ("audit_location_nan"      :> M({}, "form", FALSE, "ident")) @@
+  ("audit_location_negative" :> M({}, "form", FALSE, "ident")) @@
+  ("audit_location_age_lt_interval" :> M({}, "form", FALSE, "ident")) @@
+  ("audit_location_incomplete" :> M({}, "form", FALSE, "kind")) @@
+  ("external_instance_twice" :> M({}, "form", FALSE, "ident")) @@
+  ("search_list_shared"      :> M({"sel1"}, "survey", FALSE, "ident")) @@
+  ("loop_without_list"       :> M({}, "form", FALSE, "kind"))
 Muts == DOMAIN Cat
 
 \* an end row qualifies as top-level when it closes a top-level section (depth 1 in front of it)
